@@ -94,18 +94,26 @@ func c01Emit(w *emit.Writer, cs issCase, o *issObs) {
 
 func c01Random(r *rand.Rand, tier string) issCase {
 	cs := issCase{Class: "generic", SchedSeed: r.Int63()}
-	hazard := r.Intn(10)
+	hazard := r.Intn(12)
 	names := []string{nmCanon}
+	spelling := false
 	switch hazard {
 	case 0:
 		cs.Class, cs.AllowOverlap = "manage-load-overlaps-save", true
 	case 1:
 		cs.Class, cs.AllowSaveFault = "fault-inside-save", true
+	case 2:
+		// non-canonical spellings of one name (no faults: the hazard is kept alone)
+		cs.Class, spelling = "spelling-different-locks", true
+		names = []string{nmUni, nmPuny, "BÜCHER.example", nmPuny}
 	}
-	seedKinds := []string{"", "", "fresh", "due", "due"}
+	seedKinds := []string{"", "", "", "fresh", "fresh", "due", "due", "due", "keyonly", "nokey", "nometa", "mismatch"}
 	sk := seedKinds[r.Intn(len(seedKinds))]
+	if spelling {
+		sk = []string{"", "", "due"}[r.Intn(3)]
+	}
 	if sk != "" {
-		cs.Seeds = []issSeed{{nmCanon, sk}}
+		cs.Seeds = []issSeed{{names[len(names)-1], sk}}
 	}
 	nth := 2 + r.Intn(2)
 	if tier == "thorough" {
@@ -116,13 +124,13 @@ func c01Random(r *rand.Rand, tier string) issCase {
 		switch p := r.Intn(10); {
 		case p < 4:
 			t.Prog = "manage"
-			if r.Intn(3) == 0 {
+			if r.Intn(3) == 0 && !spelling {
 				t.Name = []string{nmUpper, " a.example", "A.EXAMPLE"}[r.Intn(3)]
 			}
 		case p < 7:
 			t.Prog, t.Async = "obtain", r.Intn(3) == 0
 		default:
-			if sk == "" {
+			if sk != "fresh" && sk != "due" {
 				t.Prog = "obtain"
 			} else {
 				t.Prog, t.Async, t.Force = "renew", r.Intn(3) == 0, r.Intn(4) == 0
@@ -138,6 +146,9 @@ func c01Random(r *rand.Rand, tier string) issCase {
 		cs.Pause = map[string]string{fmt.Sprint(r.Intn(nth)): []string{"IssueEnd:", "Store:.crt", "Store:.json", "Unlock:", "Event:cert_obtained"}[r.Intn(5)]}
 	}
 	nf := []int{0, 0, 1, 1, 2, 3}[r.Intn(6)]
+	if spelling {
+		nf = 0
+	}
 	if nf > 0 {
 		cs.Faults = map[string]int{}
 	}
@@ -198,9 +209,9 @@ func runC01(tier string, seed int64, outdir string, replay string) error {
 		c01Emit(w, cs, o)
 	}
 	r := rand.New(rand.NewSource(seed))
-	n := 400
+	n := 1500
 	if tier == "thorough" {
-		n = 4000
+		n = 12000
 	}
 	for i := 0; i < n; i++ {
 		cs := c01Random(r, tier)
